@@ -54,7 +54,7 @@ func monitorsFor(prop string, seed uint64, idx *sim.TxIndex) []sim.Monitor {
 	case "C10":
 		return []sim.Monitor{mon.NewC10()}
 	case "C11":
-		return []sim.Monitor{mon.C11{}}
+		return []sim.Monitor{mon.C11{}, mon.NewC11Twin(seed, idx)}
 	case "C14":
 		return []sim.Monitor{mon.NewC14()}
 	case "C17":
@@ -468,7 +468,7 @@ func init() {
 	reg("C10", "one case = one generated history; non-trivial = a block distributed non-zero fees or minted an award; distinct by hash of the request log",
 		[]string{"c10.nonzero_fee_blocks", "c10.award_blocks"}, map[string]int64{"c10.nonzero_fee_blocks": 200, "c10.award_blocks": 100, "c10.fee_blocks_unknown_proposer": 10}, false)
 	reg("C11", "one case = one generated history with hostile bytes and read-only traffic; non-trivial = contains a rejected DeliverTx or a read-only call; distinct by hash of the request log",
-		[]string{"c11.rejected_delivers", "c11.readonly.query"}, map[string]int64{"c11.rejected_delivers": 500, "c11.readonly.query": 300, "c11.readonly.check": 100}, false)
+		[]string{"c11.rejected_delivers", "c11.readonly.query"}, map[string]int64{"c11.rejected_delivers": 500, "c11.readonly.query": 300, "c11.readonly.check": 100, "c11.twin.heights_compared": 500, "c11.twin.traceless_rejections_skipped": 500}, false)
 	reg("C14", "one case = one generated history with store-key queries (with and without proof) issued at every call boundary, including between the transactions of a block; non-trivial = at least one proof verified; distinct by hash of the request log",
 		[]string{"c14.proofs_verified"}, map[string]int64{"c14.proofs_verified": 300, "c14.queries.pruned": 100, "c14.queries.future": 100, "c14.absent_keys": 200, "c14.queries_inside_block": 500, "c14.queries_on_key_with_pending_write": 10, "c14.proofs_cross_checked": 300}, false)
 	reg("C17", "one case = one generated history with governance traffic; non-trivial = at least one governance message was judged; distinct by hash of the request log",
